@@ -19,6 +19,11 @@ pub fn parse(text: &str, file: &str) -> Result<Library, Diagnostic> {
     parse_program(text, &fid(file), &ParseOptions::default())
 }
 
+pub fn parse_allowing_c_style_comments(text: &str, file: &str) -> Result<Library, Diagnostic> {
+    let _w = crate::util::watch::enter(text);
+    parse_program(text, &fid(file), &ParseOptions { allow_c_style_comments: true })
+}
+
 pub fn tokenize(text: &str, file: &str) -> (Vec<Token>, Vec<Diagnostic>) {
     let _w = crate::util::watch::enter(text);
     tokenize_program(text, &fid(file), &ParseOptions::default())
